@@ -437,6 +437,8 @@ def impl_script(script):
                 path = new
     except ValueError as e:
         obs["error"] = f"ValueError {e.args[0] if e.args else ''}"
+    except (KeyError, IndexError, z3.Z3Exception) as e:  # never on a well-formed Path: reported against the model
+        obs["error"] = f"{type(e).__name__} {str(e.args[0])[:80] if e.args else ''}"
     obs["ops"] = ops
     obs["table"] = table
     if obs["error"]:
